@@ -147,13 +147,21 @@ def gen_wipe(rng, tier, mult, n=None, focus=None):
                 pub = "-" if r.chance(1, 2) else hx(r.bytes(256))
                 z = 0 if r.chance(4, 5) else r.range(1, 24)          # leading zero bytes sometimes
                 priv = bytes(z) + r.bytes(32 - z)
-                blind = "FAIL" if r.chance(1, 15) else hx(r.bytes(32))
+                # a tie: the blinding value drawn IS the private exponent (code that treats this draw specially
+                # handles a copy of the secret); also its neighbours
+                blind = ("FAIL" if r.chance(1, 15) else hx(priv) if r.chance(1, 12) else
+                         hx(priv[:31] + bytes([priv[31] ^ 1])) if r.chance(1, 30) else hx(r.bytes(32)))
                 # fail the k-th OpenSSL allocation: walks the error ladder of blinded_modexp at every rung
                 failat = 0 if r.chance(1, 3) else r.range(1, 60)
                 ops.append("dh %s %s %s %d" % (pub, hx(priv), blind, failat))
             else:
                 ops.append(op_readkeys(r))
         cases.append(ops)
+    if focus is None and os.environ.get("VERIF_NO_BIG") != "1":
+        # from 2^29 bytes on the upper half of the 64-bit bit count of MD5 / SHA-1 (two 32-bit words) is in use
+        rb = rng.fork("hashbig")
+        for alg in (["md5", "sha1"] if tier == "quick" else ["md5", "sha1", "sha256"]):
+            cases.insert(0, ["hashbig %s %d" % (alg, (1 << 29) + rb.range(0, 200))])
     return cases
 
 
